@@ -551,18 +551,6 @@ func typeInvariant(v Val) T {
 				walk(f, ts[o:o+n])
 				o += n
 			}
-		case KArr:
-			// the elements of a (small) array value are values of their type
-			if s.n < 0 || s.n > 64 || s.elem == nil || len(ts) != s.elem.ncomp() {
-				return
-			}
-			for i := int64(0); i < s.n; i++ {
-				ets := make([]T, len(ts))
-				for k := range ts {
-					ets[k] = sel(ts[k], num(i))
-				}
-				walk(s.elem, ets)
-			}
 		}
 	}
 	walk(v.sh, v.ts)
